@@ -429,6 +429,18 @@ class Normaliser:
                         self.note("N8-get_unchecked")
                         i = j + 1
                         continue
+                # N19: unsafe { core::slice::from_raw_parts_mut(X.as_mut_ptr().cast::<u64>(), LEN) } where X is a local
+                # `[[u64; 2]; N]`  ->  limb_pairs_as_slice(&mut X, LEN): the reinterpretation of an array of limb pairs as a limb
+                # slice is replaced by a call whose contract (unit side, label A) states the memory-layout fact: same bytes,
+                # element 2*i + j of the slice is X[i][j]
+                m = re.fullmatch(r"core::slice::from_raw_parts_mut\((\w+)\.as_mut_ptr\(\)\.cast::<u64>\(\),(\w+)\)", inner)
+                if m:
+                    new = mk("limb_pairs_as_slice ( & mut %s , %s )" % (m.group(1), m.group(2)))
+                    new[0].ws = t.ws
+                    out += new
+                    self.note("N19-limb-pairs-as-slice")
+                    i = j + 1
+                    continue
                 raise NormError("unsupported unsafe block: " + inner[:60])
             out.append(t)
             i += 1
